@@ -141,7 +141,7 @@ def failure_indicated(res, res0):
     return False
 
 
-def judge(d, clean, verdict):
+def judge(d, clean, verdict, own=None):
     """-> list of (kind, detail) for one faulted run"""
     bad = []
     st = d["status"]
@@ -159,14 +159,14 @@ def judge(d, clean, verdict):
         bad.append(("wrong-result", m.group(1)))
     elif d["res"] != clean["res"] and not failure_indicated(d["res"], clean["res"]):
         bad.append(("silent", "result differs from the clean run without any failure indication"))
-    if d["sends"] not in ("-", "?"):
-        for s in d["sends"].split(","):
+    if d["sends"] not in ("-", "?") and own is not None:
+        # own: verdict of the extracted acceptor fa_obs_ok (coq/Fault/SendOwner.v) per coap_send
+        for s, ok in zip(d["sends"].split(","), own):
             pid, fl = s.split(":")
-            valid, live, inq, indq = (c == "1" for c in fl)
-            if not valid and live:
-                bad.append(("ownership", "coap_send returned COAP_INVALID_MID but PDU %s is still allocated" % pid))
-            if valid and live and not (inq or indq):
-                bad.append(("ownership", "PDU %s alive after coap_send but in no queue" % pid))
+            if ok != "1":
+                bad.append(("ownership", "PDU %s after coap_send: mid valid=%s, still allocated=%s, in "
+                            "sendqueue=%s, in delayqueue=%s is not an outcome of the send-path model"
+                            % ((pid,) + tuple(fl))))
     return bad
 
 
@@ -187,6 +187,18 @@ def run_chunks(exe, lines, env=None, jobs=4):
 
 def verdicts(model, traces):
     lines = ["faverdict " + t for t in traces]
+    out, _ = vlib.run_lines_robust(model, lines, timeout=900)
+    return out
+
+
+def ownerships(model, ds):
+    """extracted acceptor on the observed (valid, allocated, sendqueue, delayqueue) tuples"""
+    lines = []
+    for d in ds:
+        if d["sends"] in ("-", "?"):
+            lines.append("fasend -")
+        else:
+            lines.append("fasend " + ",".join(x.split(":")[1] for x in d["sends"].split(",")))
     out, _ = vlib.run_lines_robust(model, lines, timeout=900)
     return out
 
@@ -237,7 +249,7 @@ def enumerate_variant(run, model, exe, variant, scen_list, pairs, stats, env=Non
         N = int(c1["n"])
         sites = c1["sites"].split(",") if c1["sites"] not in ("-", "?") else []
         v0 = verdicts(model, [c1["trace"]])[0]
-        clean_bad = judge(c1, c1, v0)
+        clean_bad = judge(c1, c1, v0, ownerships(model, [c1])[0])
         if clean_bad or len(sites) != N:
             run.violation("scenario %s: the clean run itself is not clean: %s" % (sc, clean_bad),
                           "case: fa %s 0 0\nverdict: %s\n%s\n" % (sc, v0, out[0][:3000]),
@@ -271,10 +283,11 @@ def enumerate_variant(run, model, exe, variant, scen_list, pairs, stats, env=Non
             lines += plines
             ds += [parse_result(o) for o in pouts]
         vs = verdicts(model, [d["trace"] if d["status"] == "OK" else "-" for d in ds])
+        ows = ownerships(model, ds)
         ninj = 0
         nfail = 0
         single_keys = set()
-        for (k1, k2), ln, d, v in zip(cases, lines, ds, vs):
+        for (k1, k2), ln, d, v, ow in zip(cases, lines, ds, vs, ows):
             notices = parse_notice(d["site"])
             injected = len(notices)
             nontriv = injected >= (2 if k2 else 1) or (injected >= 1 and d["status"] != "OK")
@@ -303,7 +316,9 @@ def enumerate_variant(run, model, exe, variant, scen_list, pairs, stats, env=Non
                     run.violation("allocation table of the shim (live=%d) disagrees with the verdict %s"
                                   % (live, v), "case: %s\n%s\n" % (ln, d["raw"][:4000]),
                                   tag="tie_%s_%s_%d_%d" % (variant, sc, k1, k2), no_input=True)
-            bad = judge(d, c1, v)
+            bad = judge(d, c1, v, ow)
+            if d["sends"] not in ("-", "?"):
+                run.hist("coap_send_outcomes", ",".join(x.split(":")[1] for x in d["sends"].split(",")))
             if not bad:
                 continue
             nfail += 1
@@ -444,7 +459,7 @@ def replay(run, model, exe, path):
         outs, _ = vlib.run_lines_robust(exe, ["fa %s 0 0" % sc, ln], env=env)
         c, d = parse_result(outs[0]), parse_result(outs[1])
         v = verdicts(model, [d["trace"] if d["status"] == "OK" else "-"])[0]
-        bad = judge(d, c, v)
+        bad = judge(d, c, v, ownerships(model, [d])[0])
         chains = [rs.chain(nt["bt"]) for nt in parse_notice(d["site"])]
         vlib.log("case   : %s\nstatus : %s\nverdict: %s\nsites  : %s\nresult : %s\nclean  : %s\njudged : %s" %
                  (ln, d["status"], v, " & ".join(chains), d["res"], c["res"], bad or "ok"))
